@@ -17,7 +17,6 @@ import (
 	"fmt"
 	"os"
 	"runtime/debug"
-	"runtime/pprof"
 	"sort"
 	"strconv"
 	"strings"
@@ -332,11 +331,6 @@ func body(c *vk.Ctx) {
 		return
 	}
 
-	if pp := os.Getenv("C03_PPROF"); pp != "" {
-		f, _ := os.Create(pp)
-		pprof.StartCPUProfile(f)
-		defer pprof.StopCPUProfile()
-	}
 	debug.SetGCPercent(400) // allocation-heavy (protobuf decoding, state copies); the heap stays small
 	depthRoot := vk.Pick(c, 3, 4)
 	depthSeed := vk.Pick(c, 1, 2)
